@@ -79,6 +79,7 @@ func main() {
 		replayFile = flag.String("replay", "", "replay a violation json (decision vector) instead of exploring")
 		solverLog  = flag.String("solver-log", "", "write solver dialogue of worker 0 to file")
 		tierEnv    = flag.String("tier", "quick", "tier passed to harnesses via sym.Tier()")
+		support    = flag.String("support", "sym,fsm", "comma separated support packages to load")
 	)
 	var pkgs multiFlag
 	flag.Var(&pkgs, "pkg", "package (relative to repo, e.g. internal/label); repeatable")
@@ -116,7 +117,7 @@ func main() {
 	supRoot := filepath.Join(*verifDir, "support")
 	sups, _ := os.ReadDir(supRoot)
 	for _, s := range sups {
-		if s.IsDir() {
+		if s.IsDir() && strings.Contains(","+*support+",", ","+s.Name()+",") {
 			addDir(filepath.Join(supRoot, s.Name()), filepath.Join(*repo, "internal", "zzverif", s.Name()))
 			patterns = append(patterns, "./internal/zzverif/"+s.Name())
 		}
